@@ -180,6 +180,31 @@ macro_rules! arc_obj {
 arc_obj!(ArcA, AllocA);
 arc_obj!(ArcF, AllocF);
 
+struct UniMoveAtomicObj<const N: usize>(Arc<reactive_mutiny::prelude::advanced::ChannelUniMoveAtomic<u32, N, 1>>);
+impl<const N: usize> Obj for UniMoveAtomicObj<N> {
+    fn op(&self, name: &str, arg: u64, _prev: &[u64]) -> (u64, String) {
+        use reactive_mutiny::prelude::*;
+        match name {
+            "send" => { let ok = self.0.send(arg as u32).is_ok(); (ok as u64, format!("ok {}", ok)) }
+            "recv" | "drain" => show_opt(self.0.consume(0)),
+            "reserve_send_or_cancel" => {
+                match self.0.reserve_slot() {
+                    None => (0, "code 0".into()),
+                    Some(slot) => {
+                        *slot = arg as u32;
+                        let p = slot as *mut u32;
+                        let code = if self.0.try_send_reserved(unsafe { &mut *p }) { 1 }
+                                   else if self.0.try_cancel_slot_reserve(unsafe { &mut *p }) { 2 }
+                                   else if self.0.try_send_reserved(unsafe { &mut *p }) { 1 } else { 3 };
+                        (code, format!("code {}", code))
+                    }
+                }
+            }
+            _ => panic!("unknown op {}", name),
+        }
+    }
+}
+
 fn make(kind: &str, n: usize) -> Arc<dyn Obj> {
     macro_rules! pick { ($t:ident, $e:expr) => { match n { 2 => Arc::new($t::<2>($e)) as Arc<dyn Obj>, 4 => Arc::new($t::<4>($e)), 8 => Arc::new($t::<8>($e)), _ => panic!("N") } } }
     match kind {
@@ -190,6 +215,7 @@ fn make(kind: &str, n: usize) -> Arc<dyn Obj> {
         "PoolAtomic" => pick!(PoolA, BoundedOgreAllocator::new()),
         "PoolFullSync" => pick!(PoolF, BoundedOgreAllocator::new()),
         "Stack" => pick!(StackObj, OgreStack::new("s".to_string())),
+        "UniMoveAtomic" => { use reactive_mutiny::prelude::*; match n { 2 => Arc::new(UniMoveAtomicObj::<2>(ChannelCommon::new("c"))) as Arc<dyn Obj>, 4 => Arc::new(UniMoveAtomicObj::<4>(ChannelCommon::new("c"))), _ => panic!("N") } },
         "OgreArcAtomic" => match n { 2 => Arc::new(ArcA::<2>::new()) as Arc<dyn Obj>, 4 => Arc::new(ArcA::<4>::new()), _ => panic!("N") },
         "OgreArcFullSync" => match n { 2 => Arc::new(ArcF::<2>::new()) as Arc<dyn Obj>, 4 => Arc::new(ArcF::<4>::new()), _ => panic!("N") },
         _ => panic!("unknown object kind {}", kind),
@@ -206,6 +232,7 @@ fn main() {
     let mut origins = [0u32; 4]; let mut prefill: Vec<u64> = vec![];
     let mut threads: Vec<Vec<(String, String)>> = vec![]; let mut after: Vec<(String, String)> = vec![];
     let mut segments: Vec<(usize, usize)> = vec![];
+    let mut free_rounds: usize = 0;
     for line in inp.lines() {
         let line = line.trim(); if line.is_empty() { continue; }
         let (h, rest) = line.split_once(' ').unwrap_or((line, ""));
@@ -215,9 +242,54 @@ fn main() {
             "prefill" => prefill = rest.split_whitespace().map(|x| x.parse().unwrap()).collect(),
             "thread" => threads.push(parse_ops(rest)),
             "after" => after = parse_ops(rest),
+            "free" => free_rounds = rest.trim().parse().unwrap(),
             "segments" => segments = rest.split_whitespace().map(|x| { let (a, b) = x.split_once(':').unwrap(); (a.parse().unwrap(), b.parse().unwrap()) }).collect(),
             _ => panic!("unknown line {}", line),
         }
+    }
+    if free_rounds > 0 {
+        // uncontrolled stress replay: the same thread programs on free-running OS threads, a fresh object per round;
+        // used when the model schedule needs a switch INSIDE a statement, where no yield hook can sit
+        for round in 0..free_rounds {
+            verif::set_sequence_origins(origins);
+            let obj = make(&kind, n);
+            let pre_op = if kind == "Stack" { "push" } else if kind.starts_with("Pool") { "alloc" } else { "send" };
+            if kind.starts_with("OgreArc") { obj.op("create", prefill[0], &[]); for _ in 1..threads.len() { obj.op("handle", 0, &[]); } }
+            else { for v in &prefill { obj.op(pre_op, *v, &[]); } }
+            let barrier = Arc::new(std::sync::Barrier::new(threads.len()));
+            let out = Arc::new(Mutex::new(Vec::<String>::new()));
+            let mut hs = vec![];
+            for (t, prog) in threads.iter().cloned().enumerate() {
+                let obj = obj.clone(); let out = out.clone(); let barrier = barrier.clone(); let is_arc = kind.starts_with("OgreArc");
+                hs.push(std::thread::spawn(move || {
+                    let mut prev: Vec<u64> = vec![]; let mut lines = vec![];
+                    barrier.wait();
+                    for (j, (name, argtxt)) in prog.iter().enumerate() {
+                        let arg: u64 = if let Some(k) = argtxt.strip_prefix('r') { prev[k.parse::<usize>().unwrap()] } else if is_arc && name != "alloc" { t as u64 } else { argtxt.parse().unwrap() };
+                        let first = CLOCK.fetch_add(1, SeqCst);
+                        let r = std::panic::catch_unwind(std::panic::AssertUnwindSafe(|| obj.op(name, arg, &prev)));
+                        let last = CLOCK.fetch_add(1, SeqCst);
+                        match r {
+                            Ok((val, txt)) => { prev.push(val); lines.push(format!("ev {} {} {} {} {} {} {}", t, j, name, arg, first, last, txt)); }
+                            Err(_) => { lines.push(format!("panic {} {} panicked", t, j)); break; }
+                        }
+                    }
+                    out.lock().unwrap().extend(lines);
+                }));
+            }
+            for h in hs { let _ = h.join(); }
+            let mut prev: Vec<u64> = vec![];
+            for (j, (name, argtxt)) in after.iter().enumerate() {
+                let arg: u64 = argtxt.parse().unwrap_or(0);
+                let first = CLOCK.fetch_add(1, SeqCst);
+                let (val, txt) = obj.op(name, arg, &prev); prev.push(val);
+                let last = CLOCK.fetch_add(1, SeqCst);
+                out.lock().unwrap().push(format!("ev {} {} {} {} {} {} {}", threads.len(), j, name, arg, first, last, txt));
+            }
+            println!("round {}", round);
+            for l in out.lock().unwrap().iter() { println!("{}", l); }
+        }
+        return;
     }
     verif::set_sequence_origins(origins);
     let obj = make(&kind, n);
